@@ -25,7 +25,7 @@ def main():
     ok = c.setup()
     # ---------------- engine B
     n = 3 if c.tier == 'quick' else 4
-    if ok:
+    if True:
         for la in range(n + 1):
             for lb in range(n + 1):
                 c.run('rsym merge %dx%d' % (la, lb), 'rsym.hm', 'MergeHarness', dict(la=la, lb=lb, sample_rate=0.05 if la + lb < 5 else 0.005), time_cap=300 if c.tier == 'quick' else 1800)
